@@ -7,6 +7,7 @@ import (
 	"fmt"
 
 	gogoproto "github.com/gogo/protobuf/proto"
+	gogodesc "github.com/gogo/protobuf/protoc-gen-gogo/descriptor"
 	gogotypes "github.com/gogo/protobuf/types"
 	golangproto "github.com/golang/protobuf/proto" //nolint
 	dto "github.com/prometheus/client_model/go"
@@ -51,8 +52,10 @@ var golangOps = runtimeOps{class: "googlev1",
 	unmarshal: func(b []byte, m interface{}) error { return golangproto.Unmarshal(b, m.(golangproto.Message)) },
 	size:      func(m interface{}) int { return golangproto.Size(m.(golangproto.Message)) },
 	clone:     func(m interface{}) interface{} { return golangproto.Clone(m.(golangproto.Message)) },
-	equal:     func(a, b interface{}) bool { return golangproto.Equal(a.(golangproto.Message), b.(golangproto.Message)) },
-	text:      func(m interface{}) string { return golangproto.MarshalTextString(m.(golangproto.Message)) },
+	equal: func(a, b interface{}) bool {
+		return golangproto.Equal(a.(golangproto.Message), b.(golangproto.Message))
+	},
+	text: func(m interface{}) string { return golangproto.MarshalTextString(m.(golangproto.Message)) },
 }
 
 var v2Ops = runtimeOps{class: "googlev2",
@@ -74,8 +77,8 @@ type shimType struct {
 	mutate func(m interface{}) // make it differ
 }
 
-func sp(s string) *string { return &s }
-func i32p(v int32) *int32 { return &v }
+func sp(s string) *string   { return &s }
+func i32p(v int32) *int32   { return &v }
 func u64p(v uint64) *uint64 { return &v }
 
 func shimCorpus() []shimType {
@@ -92,11 +95,19 @@ func shimCorpus() []shimType {
 			},
 			fresh: func() interface{} { return &ex2gogo.EmbeddedEvent{} }, mutate: func(m interface{}) { m.(*ex2gogo.EmbeddedEvent).Stuff = sp("changed!") }},
 		{name: "gogo/plain/types.Timestamp", ops: gogoOps, mt: 1,
-			gen:   func(r *prng.Rng) interface{} { return &gogotypes.Timestamp{Seconds: int64(r.Intn(1 << 30)), Nanos: int32(r.Intn(1e9))} },
+			gen: func(r *prng.Rng) interface{} {
+				return &gogotypes.Timestamp{Seconds: int64(r.Intn(1 << 30)), Nanos: int32(r.Intn(1e9))}
+			},
 			fresh: func() interface{} { return &gogotypes.Timestamp{} }, mutate: func(m interface{}) { m.(*gogotypes.Timestamp).Seconds++ }},
 		{name: "gogo/plain/types.StringValue", ops: gogoOps, mt: 1,
 			gen:   func(r *prng.Rng) interface{} { return &gogotypes.StringValue{Value: str(r)} },
 			fresh: func() interface{} { return &gogotypes.StringValue{} }, mutate: func(m interface{}) { m.(*gogotypes.StringValue).Value += "x" }},
+		{name: "gogo/plain/descriptor.DescriptorProto(nested)", ops: gogoOps, mt: 1,
+			gen: func(r *prng.Rng) interface{} {
+				return &gogodesc.DescriptorProto{Name: sp(str(r)), Field: []*gogodesc.FieldDescriptorProto{{Name: sp(str(r)), Number: i32p(int32(1 + r.Intn(100)))}, {Name: sp("f2")}},
+					NestedType: []*gogodesc.DescriptorProto{{Name: sp(str(r))}}}
+			},
+			fresh: func() interface{} { return &gogodesc.DescriptorProto{} }, mutate: func(m interface{}) { m.(*gogodesc.DescriptorProto).Name = sp("changed!") }},
 		{name: "googlev1/plain/dto.LabelPair", ops: golangOps, mt: 2,
 			gen:   func(r *prng.Rng) interface{} { return &dto.LabelPair{Name: sp(str(r)), Value: sp(str(r))} },
 			fresh: func() interface{} { return &dto.LabelPair{} }, mutate: func(m interface{}) { m.(*dto.LabelPair).Name = sp("changed!") }},
@@ -112,7 +123,9 @@ func shimCorpus() []shimType {
 			},
 			fresh: func() interface{} { return &ex3v1.EmbeddedEvent{} }, mutate: func(m interface{}) { m.(*ex3v1.EmbeddedEvent).ID ^= 1 }},
 		{name: "googlev1-api/fast-marshal/proto2.EmbeddedEvent", fastM: true, ops: v2Ops, mt: 3,
-			gen:   func(r *prng.Rng) interface{} { return &ex2v1.EmbeddedEvent{ID: i32p(int32(r.U64Interesting())), Stuff: sp(str(r))} },
+			gen: func(r *prng.Rng) interface{} {
+				return &ex2v1.EmbeddedEvent{ID: i32p(int32(r.U64Interesting())), Stuff: sp(str(r))}
+			},
 			fresh: func() interface{} { return &ex2v1.EmbeddedEvent{} }, mutate: func(m interface{}) { m.(*ex2v1.EmbeddedEvent).Stuff = sp("changed!") }},
 		{name: "googlev2/fast-marshal/proto3.EmbeddedEvent", fastM: true, ops: v2Ops, mt: 3,
 			gen: func(r *prng.Rng) interface{} {
@@ -120,7 +133,9 @@ func shimCorpus() []shimType {
 			},
 			fresh: func() interface{} { return &ex3v2.EmbeddedEvent{} }, mutate: func(m interface{}) { m.(*ex3v2.EmbeddedEvent).ID ^= 1 }},
 		{name: "googlev2/fast-marshal/proto2.EmbeddedEvent", fastM: true, ops: v2Ops, mt: 3,
-			gen:   func(r *prng.Rng) interface{} { return &ex2v2.EmbeddedEvent{ID: i32p(int32(r.U64Interesting())), Stuff: sp(str(r))} },
+			gen: func(r *prng.Rng) interface{} {
+				return &ex2v2.EmbeddedEvent{ID: i32p(int32(r.U64Interesting())), Stuff: sp(str(r))}
+			},
 			fresh: func() interface{} { return &ex2v2.EmbeddedEvent{} }, mutate: func(m interface{}) { m.(*ex2v2.EmbeddedEvent).Stuff = sp("changed!") }},
 		{name: "googlev2/plain/timestamppb", ops: v2Ops, mt: 3,
 			gen:   func(r *prng.Rng) interface{} { return timestamppb.New(timeFrom(r)) },
